@@ -355,6 +355,8 @@ def jobs(tier, seed):
         {'e|r1': [1, 3, 4, 6, 7], 'e|r2': [10, 11, 12, 14, 15, 16], 'e|r3': [5, 6, 7, 8, 9]},
         {'e|r1': list(range(1, 7)), 'f|r1': [3, 6, 9, 12, 15, 18, 21]},
         {'e|r1': list(range(1, 13))},
+        {'e|r1': list(range(1, 6)), 'e|r2': list(range(1, 17))},            # a replica shorter than w_max
+        {'e|r1': [2, 4, 6, 8, 10], 'e|r2': list(range(1, 15)), 'e|r3': [3, 4, 5, 7, 8, 9]},
     ]
     if tier == 'thorough':
         L1 += [{'e|r1': list(range(1, 17))}, {'e|r1': [5, 10, 20, 25, 30, 40, 45, 50, 60]}, {'e|r1': list(range(1, 10)), 'e|r2': list(range(3, 30, 3)), 'e|r3': [1, 2, 4, 5, 7, 8, 10]}]
